@@ -89,7 +89,8 @@ func oneWorkload(seed int64, nNodes, nCC int, churn bool) string {
 	kf := informers.NewSharedInformerFactory(kube, 0)
 	cf := ccinformers.NewSharedInformerFactory(net, 0)
 	slow := &atomic.Bool{}
-	var nodeInf coreinformers.NodeInformer = slowNodeInformer{NodeInformer: kf.Core().V1().Nodes(), on: slow, delay: 800 * time.Microsecond}
+	overflow := &atomic.Bool{}
+	var nodeInf coreinformers.NodeInformer = slowNodeInformer{NodeInformer: kf.Core().V1().Nodes(), on: slow, delay: 400 * time.Microsecond}
 	ccInf := cf.Networking().V1().ClusterCIDRs()
 
 	// ClusterCIDRs: disjoint /26.. ranges plus one overlapping pair, some with selectors
@@ -154,11 +155,18 @@ func oneWorkload(seed int64, nNodes, nCC int, churn bool) string {
 		slow.Store(true)
 		nl2, _ := kube.CoreV1().Nodes().List(ctx, metav1.ListOptions{})
 		var wg2 sync.WaitGroup
-		for g := 0; g < 16; g++ {
+		// 6 clients, paced: the fake clientset's watch channel holds 100 undelivered events and panics beyond that, and the
+		// deletion handler queues behind the allocator lock; an overflow (recovered) makes the workload inconclusive
+		for g := 0; g < 6; g++ {
 			wg2.Add(1)
 			go func(g int) {
 				defer wg2.Done()
-				for i := g; i < len(nl2.Items); i += 16 {
+				defer func() {
+					if r := recover(); r != nil {
+						overflow.Store(true)
+					}
+				}()
+				for i := g; i < len(nl2.Items); i += 6 {
 					n := nl2.Items[i].DeepCopy()
 					cur, err := kube.CoreV1().Nodes().Get(ctx, n.Name, metav1.GetOptions{})
 					if err != nil {
@@ -173,6 +181,7 @@ func oneWorkload(seed int64, nNodes, nCC int, churn bool) string {
 					// long enough for a worker to pick the item up, short enough for it to be still waiting for the lock
 					time.Sleep(time.Duration((seed*31+int64(i)*17)%1500) * time.Microsecond)
 					_ = kube.CoreV1().Nodes().Delete(ctx, n.Name, metav1.DeleteOptions{})
+					time.Sleep(3 * time.Millisecond)
 				}
 			}(g)
 		}
@@ -192,6 +201,10 @@ func oneWorkload(seed int64, nNodes, nCC int, churn bool) string {
 			stable = 0
 			last = cur
 		}
+	}
+	if overflow.Load() {
+		cancel()
+		return "workload inconclusive: the fake clientset's watch channel overflowed"
 	}
 	snap := alloc.Snapshot()
 	cancel()
